@@ -20,7 +20,7 @@ TRUSTED = ["model: coq/theories/Model/CQMSpec.v (plain list of polynomials), Exp
 ASSUMPTIONS = ["the base quadratic model of an expression (abc.h adjacency) is abstracted to a list of linear biases and a bag of "
                "interactions over local indices (Adj.v is the detailed mirror)",
                "IEEE-754 arithmetic is exact on the small dyadic coefficients generated"]
-PARTIAL = ["substitute_self_loops, clear and from_discrete_quadratic_model are modelled at the S level only (CQMSpec.step: SubstSelfLoops carries the mapping the call returned, the specification decides which variables must be in it; theorems C05_substitute_self_loops_*, C05_clear_is_empty, C05_from_dqm_shape); they have no index-level (M) counterpart, so the refinement theorems C05_cqm_refines_spec* do not range over them - they are Python-level compositions of operations that do (add_variable, view add_quadratic / remove_interaction, add_constraint, set_objective); a REAL self-loop (accepted by the term iterables) makes substitute_self_loops raise after adding the new variable - reported finding, kept out of the random stream (feature subst_self_loops_real)",
+PARTIAL = ["substitute_self_loops, clear and from_discrete_quadratic_model are modelled at the S level only (CQMSpec.step: SubstSelfLoops carries the mapping the call returned, the specification decides which variables must be in it; theorems C05_substitute_self_loops_*, C05_clear_is_empty, C05_from_dqm_shape); they have no index-level (M) counterpart, so the refinement theorems C05_cqm_refines_spec* do not range over them - they are Python-level compositions of operations that do (add_variable, view add_quadratic / remove_interaction, add_constraint, set_objective); a REAL self-loop (accepted by the term iterables) makes substitute_self_loops raise after adding the new variable - reported finding, kept out of the random stream (feature subst_self_loops_real; the defect itself - a raise that leaves the model altered - is registered under C20, corpus/C20/py_cqm_substitute_self_loops_real.json)",
            "variable order and the ordered interaction list are theorem-level at index level for every history "
            "(C05_cqm_refines_spec_exact); for the labelled model they are stated through the index-level history of resolved "
            "operations it always is (C05_cqm_refines_spec_labels_exact), not against a native order list over labels; the order of "
